@@ -30,7 +30,7 @@ def drv_cfg(p):
             "sender_count": p["sender_count"], "buf_cap": p["buf_cap"]}
 
 
-def run_family(pid, tier, seed, families, invariants, live=None, assumptions=()):
+def run_family(pid, tier, seed, families, invariants, live=None, assumptions=(), extra=None):
     """families: list of dict(name, params, mc_len (MaxLen for exhaustive check), paths_quick, paths_thorough, depth)"""
     t0 = time.time()
     verdict = vlib.Verdict(pid)
@@ -115,6 +115,13 @@ def run_family(pid, tier, seed, families, invariants, live=None, assumptions=())
                                   {"family": "incr", "cfg": drv_cfg(p), "path": steps[ev["case"]] if ev["case"] < len(steps) else None, "seed": seed})
             if len(samples) < 3 and steps:
                 samples.append({"family": fam["name"], "behaviour": steps[0][:14], "last_snapshot": [x for x in rows if x["e"] == "snap"][-1]})
+        if extra:
+            # a further part of the same check (same scratch, same verdict): returns (states, transitions, stats, cmds)
+            es, et, estats, ecmds = extra(sc, verdict, thorough, seed)
+            states += es
+            trans += et
+            stats.update(estats)
+            cmds = ecmds + cmds
     rc = verdict.finish()
     cov = {"states": states, "transitions": trans, "traces_validated_against_impl": stats["lockstep_paths"] + stats["free_runs"],
            "samples": samples, "evaluations": stats["snapshots"], "distinct_nontrivial": stats["lockstep_paths"],
